@@ -1,7 +1,8 @@
 """Single source for MANIFEST.json (python tools_manifest.py regenerates it)."""
 SOURCE_COMMITS = []
 ENGINES = [
- {"name": "runner", "path": "vp/runner.py", "serves_properties": ["C16"], "kind_free_text": "Hypothesis-driven generation sharded over 16 processes, collect-by-signature then JSON ddmin shrinking, known-findings/fixed replay, evidence writer"},
+ {"name": "packs", "path": "vp/packs.py", "serves_properties": ["C02", "C18"], "kind_free_text": "E1: enumeration of the 164 shipped table modules / 895 combinations and a reference item decoder/encoder built from the recorded constructor arguments of the generated tables (independent of accessor.py)"},
+ {"name": "runner", "path": "vp/runner.py", "serves_properties": ["C02", "C16", "C18"], "kind_free_text": "Hypothesis-driven generation sharded over 16 processes, collect-by-signature then JSON ddmin shrinking, known-findings/fixed replay, evidence writer"},
 ]
 CHECKS = [
  {"id": "C16", "engine": "runner", "level": "exploration",
@@ -9,14 +10,20 @@ CHECKS = [
   "text": "Every reachable (protocol counter, command counter) state of both implementations is enumerated from a fresh object in three interleaving orders and each returned value is compared with an explicit successor model (exhaustive for the state space); random call sequences, real threads with a GIL-yielding counter shim (multiset + lock-held oracle) and the sequence byte of every datagram the threaded client queues for set-value / key-press / watercare / refresh / STATQ are checked against the same model.",
   "ref": "DESIGN.md section 3 C16",
   "note": "OS-thread pre-emption is amplified, not enumerated. The reference parse of the sequence byte is written from the protocol description (verb + 1 byte)."},
+ {"id": "C18", "engine": "packs", "level": "exploration",
+  "technique": "exhaustive enumeration of all shipped table items/modules/combinations against well-formedness predicates and a pinned layout manifest (differential against the audited commit)",
+  "text": "Complete sweep, no sampling: every item of every table module is checked for addressability (bytes inside the 1024-byte block, bit field inside its bytes, enum labels representable) on the constructor arguments recorded from the generated table itself, every advertised key must name an item, version/platform/file names must agree and the FILES reply of every platform x cfg x log combination must resolve to the shipped modules; every public attribute of every real accessor and table object is compared with the layout pinned at commit 236b7b1 (new modules allowed, pinned ones immutable, removed items/modules reported).",
+  "ref": "DESIGN.md section 3 C18",
+  "note": "Immutability is relative to the pinned commit; capacity of a bit field follows the MaxItems convention. Three genuine table defects are listed in known_findings.json."},
+ {"id": "C02", "engine": "packs", "level": "exploration",
+  "technique": "property-based testing: per-shape exhaustive (field contents x domain) sweep + per-item generated writes, emitted device write applied to the block and judged by an independent reference layout/decoder; sync/async differential",
+  "text": "For every distinct item shape all existing field contents x all domain values (1-byte fields completely; 2-byte bit-fields completely in thorough) and for every one of the ~20,500 items several generated (block, value) pairs are written through the blocking and the awaitable path of both structure classes; the emitted (pos,len,value) is applied as a big-endian store and must make the item read back the value (reference decoder and real accessor), flip no bit outside the item's own mask, change no other item of the cfg+log pair, be identical on both paths, and read-only items must raise and emit nothing; string forms of numbers/booleans included.",
+  "ref": "DESIGN.md section 3 C02",
+  "note": "Reference geometry comes from the constructor arguments in the generated tables (recorded by executing the table modules against recording classes), not from accessor.py."},
 ]
 NOT_APPLICABLE = [
  {
   "property_id": "C01",
-  "reason": "check not built yet in this session (work in progress; see DESIGN.md section 3)"
- },
- {
-  "property_id": "C02",
   "reason": "check not built yet in this session (work in progress; see DESIGN.md section 3)"
  },
  {
@@ -73,10 +80,6 @@ NOT_APPLICABLE = [
  },
  {
   "property_id": "C17",
-  "reason": "check not built yet in this session (work in progress; see DESIGN.md section 3)"
- },
- {
-  "property_id": "C18",
   "reason": "check not built yet in this session (work in progress; see DESIGN.md section 3)"
  },
  {
